@@ -3,7 +3,7 @@
 From Coq Require Import List Arith NArith Lia Bool ZifyN ZifyNat ZifyBool.
 From FS Require Import Sx Model.Path Model.Fs Model.RootPath Model.CopyFs Model.CopyFsSpec
   Proofs.Lex Proofs.PathP Proofs.FsP Proofs.RootPathStrP Proofs.FsCopyFrameP Proofs.FsCopyInvP
-  Proofs.FsCopySafeP Proofs.FsCopyLinksP Proofs.FsCopySysP Proofs.CopyFsP Proofs.CopyRecP Proofs.CopyTopP
+  Proofs.FsCopySafeP Proofs.FsCopyLinksP Proofs.FsCopySysP Proofs.CopyFsP Proofs.CopyRecP Proofs.CopyFsTopP
   Proofs.CopyContainedP Proofs.RootPathWitnessP.
 Import ListNotations.
 Open Scope N_scope.
